@@ -361,17 +361,32 @@ package client
 // ---------------------------------------------------------------------------
 // line.go
 
+// C01 (fragments): the source splits at the first '!' and the first '@' after it.
 //@ func parseUserHost
-//@   property C02
+//@   property C02, C01
 //@   safety C02
+//@   bind t string := call strings.TrimSpace 1
+//@   ensures [C01] !ok ==> nick == "" && ident == "" && host == ""
+//@   ensures [C01] ok ==> firstIdx(t, "!") >= 0 && firstIdx(t, "!") < firstIdx(t, "@")
+//@        && nick === t[:firstIdx(t, "!")] && ident === t[firstIdx(t, "!")+1:firstIdx(t, "@")] && host === t[firstIdx(t, "@")+1:]
+//@   ensures [C01] ok <==> (firstIdx(t, "!") >= 0 && firstIdx(t, "@") >= 0 && firstIdx(t, "!") < firstIdx(t, "@"))
 //@ end
 
+// C01 (fragments, for every input - well-formed or not): the raw text is kept, the tag map exists
+// exactly when a tag section was sent, a message without a source has no source components, and
+// a source is the text between ':' and the first space.
 //@ func ParseLine
-//@   property C02
+//@   property C02, C01
 //@   safety C02
+//@   ensures [C01] result != nil ==> len(s) > 0 && result.Raw === s
+//@   ensures [C01] result != nil ==> ((result.Tags == nil) <==> s[0] != '@')
+//@   ensures [C01] result != nil && s[0] != '@' && s[0] != ':' ==> result.Src == "" && result.Nick == "" && result.Ident == "" && result.Host == ""
+//@   ensures [C01] result != nil && s[0] == ':' ==> firstIdx(s, " ") >= 1 && result.Src === s[1:firstIdx(s, " ")]
 //@   loop 0:
 //@     invariant true
+//@     invariant [C01] line != nil && line.Raw === old(s) && line.Tags != nil && line.Src == "" && line.Nick == "" && line.Ident == "" && line.Host == "" && len(old(s)) > 0 && old(s)[0] == '@'
 //@ end
+//@ closure [C01] const_args strings.NewReplacer in init = "\\:" ";" "\\s" " " "\\\\" "\\" "\\r" "\r" "\\n" "\n"
 
 //@ func (*Line).Text
 //@   property C02
